@@ -47,7 +47,7 @@ def registry():
              decreases='len - i')})
 
     R.define('first_at(p, c, n, j)', 'j <= n and all(p[t] != c for t in range(j)) and (j == n or p[j] == c)')
-    R.fn('safe_search', cost=5, regions={'in1': 'u8[len]'}, allocates=True,
+    R.fn('safe_search', cost=8, regions={'in1': 'u8[len]'}, allocates=True,
          ensures={'failure_iff': '(result == %s) <==> (len == 0 or alloc_failed)' % MAX,
                   'first_match': 'result != %s ==> first_at(in1, c, len, result)' % MAX},
          loops={0: dict(invariants={
@@ -64,7 +64,7 @@ def registry():
     # j is THE index of the first zero octet at position >= 10, or n if there is none (unique, always exists)
     R.define('first_zero(em, n, j)', 'all(em[t] != 0 for t in range(10, j)) and (j == n or em[j] == 0)')
     R.define('ok(em, n, j, expected)', 'prefix_ok(em) and j < n and (expected == 0 or n - 1 - j == expected)')
-    R.fn('pkcs1_decode', cost=15,
+    R.fn('pkcs1_decode', cost=70,
          regions={'em': 'u8[len_em_output]', 'sentinel': 'u8[len_sentinel]', 'output': 'u8[len_em_output]'},
          modifies=['output'], allocates=True,
          requires={'int_range': 'len_em_output <= 2147483647'},
@@ -96,7 +96,7 @@ def registry():
     # DB = lHash' || PS (zeros) || 0x01 || M with the 0x01 at db[hLen + i]
     R.define('oaep_ok(em, lHash, hLen, db, i)',
              'em[0] == 0 and all(db[k] == lHash[k] for k in range(hLen)) and all(db[hLen + t] == 0 for t in range(i)) and db[hLen + i] == 1')
-    R.fn('oaep_decode', cost=15,
+    R.fn('oaep_decode', cost=70,
          regions={'em': 'u8[em_len]', 'lHash': 'u8[hLen]', 'db': 'u8[db_len]'}, allocates=True,
          requires={'int_range': 'em_len <= 2147483647'},
          ensures={
